@@ -44,3 +44,7 @@ open CaddyModel.C02
 #print axioms quic_after_drain_only_new
 #print axioms quic_refs
 #print axioms latest_config_does_not_win
+#print axioms retained_tcp_usage_at_least_two_at_stop
+#print axioms closing_tcp_usage_is_one_at_stop
+#print axioms shutdown_delay_decision_exact_for_tcp
+#print axioms retained_unix_usage_is_one_at_stop
